@@ -3,6 +3,7 @@
 package connectconformance
 
 import (
+	"google.golang.org/protobuf/encoding/protojson"
 	"bytes"
 	"fmt"
 	"testing"
@@ -32,6 +33,9 @@ type vfExpReq struct {
 type vfC19Case struct {
 	Reqs        []vfExpReq `json:"reqs"`
 	ExtraDirect int        `json:"extraDirectives"` // directives beyond the request list
+	// Via: "" calls expandRequestData directly; "suite" / "suite-limit" load a suite file that contains the
+	// test case through parseTestSuites (without / with relies_on_message_receive_limit)
+	Via string `json:"via"`
 }
 
 func vfBuildReq(r vfExpReq) proto.Message {
@@ -121,7 +125,28 @@ func vfC19Check(c vfC19Case) error {
 	for i := 0; i < c.ExtraDirect; i++ {
 		tc.ExpandRequests = append(tc.ExpandRequests, &conformancev1.TestCase_ExpandedSize{SizeRelativeToLimit: proto.Int32(0)})
 	}
-	err := expandRequestData(tc)
+	var err error
+	if c.Via == "" {
+		err = expandRequestData(tc)
+	} else {
+		suite := &conformancev1.TestSuite{Name: "Verif C19", RelevantCodecs: []conformancev1.Codec{conformancev1.Codec_CODEC_PROTO},
+			ReliesOnMessageReceiveLimit: c.Via == "suite-limit", TestCases: []*conformancev1.TestCase{tc}}
+		if suite.ReliesOnMessageReceiveLimit {
+			suite.Mode = conformancev1.TestSuite_TEST_MODE_SERVER
+		}
+		js, jerr := protojson.Marshal(suite)
+		if jerr != nil {
+			return nil
+		}
+		var parsed map[string]*conformancev1.TestSuite
+		parsed, err = parseTestSuites(map[string][]byte{"verif-c19.yaml": js})
+		if err == nil {
+			if len(parsed) != 1 || len(parsed["verif-c19.yaml"].GetTestCases()) != 1 {
+				return verifkit.Violf("expand-suite-lost", "the suite file did not come back with its one test case")
+			}
+			tc = parsed["verif-c19.yaml"].TestCases[0]
+		}
+	}
 	if c.ExtraDirect > 0 {
 		if err == nil {
 			return verifkit.Violf("expand-too-many-accepted", "%d directives for %d requests were accepted", len(tc.ExpandRequests), len(c.Reqs))
@@ -229,12 +254,13 @@ func TestVerifC19Expand(t *testing.T) {
 			if rapid.IntRange(0, 9).Draw(t, "extra") == 0 {
 				c.ExtraDirect = rapid.IntRange(1, 2).Draw(t, "nextra")
 			}
+			c.Via = rapid.SampledFrom([]string{"", "", "suite", "suite-limit"}).Draw(t, "via")
 			return c
 		},
 		Check: vfC19Check,
 		Classify: func(c vfC19Case) ([]string, bool) {
 			nt := false
-			var cl []string
+			cl := []string{"via:" + c.Via}
 			for _, r := range c.Reqs {
 				if !r.Expand || !r.HasSize {
 					continue
